@@ -1,6 +1,7 @@
 \* every template, label counts 1..2, ALL maps (max(S,P) <= 4), short maps rejected, rotating initial request
 CONSTANTS
     Tpls = {"uni", "bi", "split", "influx", "efflux", "rev", "homo", "dimer", "cof", "byst", "der", "chain"}
+    Ords = {"std"}
     MaxNL = 2
     MaxL = 4
     ShortMaps = TRUE
